@@ -7,6 +7,7 @@ import Driver.FFEngine
 import Driver.RpcEngine
 import Driver.SPEngine
 import Driver.PTEngine
+import Driver.PXEngine
 /-! Line-protocol driver: one operation per input line; for every line the driver prints the
     model's observations (lines starting with `O `) followed by a line containing a single `.`.
     Core Lean only (linked as an executable). -/
@@ -31,6 +32,7 @@ def stepLine (st : DState) (toks : List String) : DState × List String :=
   | "RPC" :: rest => (st, rpcStep rest)
   | "SP" :: rest => (st, spStep rest)
   | "PT" :: rest => (st, ptStep rest)
+  | "PX" :: rest => (st, pxStep rest)
   | "RI" :: rest => let (c, obs) := riStep st.cont rest
                     ({ st with cont := c }, obs)
   | "LRU" :: rest => let (c, obs) := lruStepD st.cont rest
